@@ -28,6 +28,12 @@ type nfsWorld struct {
 	ofp  *nfsv4.OpenedFilesPool
 	prog [2]nfs.Nfs4Program // index = minor version
 	ctx  context.Context
+
+	// onCompound, if set, runs after every COMPOUND (lock probes). Once it
+	// has set dead, no further COMPOUND reaches the server: a call on an
+	// object whose lock was left behind would block for ever.
+	onCompound func(minor uint32, res *nfs.Compound4res)
+	dead       atomic.Bool
 }
 
 const (
@@ -84,9 +90,15 @@ func (w *nfsWorld) probe(dirs []virtual.Directory, leaves []virtual.Leaf) (held 
 }
 
 func (w *nfsWorld) compound(minor uint32, ops ...nfs.NfsArgop4) *nfs.Compound4res {
+	if w.dead.Load() {
+		return &nfs.Compound4res{Status: nfs.NFS4ERR_DELAY, Tag: "not sent"}
+	}
 	res, err := w.prog[minor].NfsV4Nfsproc4Compound(w.ctx, &nfs.Compound4args{Tag: "c14", Minorversion: minor, Argarray: ops})
 	if err != nil {
 		panic("c14: COMPOUND returned a Go error: " + err.Error())
+	}
+	if w.onCompound != nil {
+		w.onCompound(minor, res)
 	}
 	return res
 }
@@ -440,6 +452,74 @@ func (c *nfsClient) dirOp(slot int, dirFH []byte, rng *rand.Rand, names []string
 	}
 }
 
+// hostile issues one protocol-level oddity whose error return has its own
+// unlock path in the server: bad slots, misordered and replayed sequences,
+// oversized compounds, unknown sessions and clients, reclaim opens.
+func (c *nfsClient) hostile(rng *rand.Rand, dirFH []byte) []*nfs.Compound4res {
+	getattr := &nfs.NfsArgop4_OP_GETATTR{Opgetattr: nfs.Getattr4args{AttrRequest: dirAttrRequest}}
+	if c.minor == 1 {
+		seq := func(session [16]byte, slot, seqid uint32) nfs.NfsArgop4 {
+			return &nfs.NfsArgop4_OP_SEQUENCE{Opsequence: nfs.Sequence4args{SaSessionid: session, SaSequenceid: seqid, SaSlotid: slot, SaCachethis: true}}
+		}
+		switch rng.IntN(7) {
+		case 0: // slot outside the session
+			return []*nfs.Compound4res{c.w.compound(1, seq(c.session, 99, 1), putfh(nil))}
+		case 1: // sequence far ahead
+			return []*nfs.Compound4res{c.w.compound(1, seq(c.session, 0, c.slotSeq[0]+2), putfh(nil))}
+		case 2: // replay of the last request of the slot (cached reply or false retry)
+			return []*nfs.Compound4res{c.w.compound(1, seq(c.session, 0, c.slotSeq[0]), putfh(nil), getattr)}
+		case 3: // more operations than the channel allows
+			ops := []nfs.NfsArgop4{seq(c.session, 0, c.slotSeq[0]+1)}
+			for i := 0; i < 101; i++ {
+				ops = append(ops, putfh(nil))
+			}
+			return []*nfs.Compound4res{c.w.compound(1, ops...)}
+		case 4: // unknown session
+			bad := c.session
+			bad[3] ^= 0xff
+			return []*nfs.Compound4res{c.w.compound(1, seq(bad, 0, 1), putfh(nil))}
+		case 5: // no SEQUENCE at all
+			return []*nfs.Compound4res{c.w.compound(1, putfh(nil), getattr)}
+		default: // CREATE_SESSION replay / misordered, unknown client
+			return []*nfs.Compound4res{
+				c.w.compound(1, &nfs.NfsArgop4_OP_CREATE_SESSION{OpcreateSession: nfs.CreateSession4args{CsaClientid: c.id, CsaSequence: 77}}),
+				c.w.compound(1, &nfs.NfsArgop4_OP_CREATE_SESSION{OpcreateSession: nfs.CreateSession4args{CsaClientid: c.id ^ 0x77, CsaSequence: 1}}),
+				c.w.compound(1, &nfs.NfsArgop4_OP_DESTROY_CLIENTID{OpdestroyClientid: nfs.DestroyClientid4args{DcaClientid: c.id ^ 0x77}}),
+			}
+		}
+	}
+	switch rng.IntN(6) {
+	case 0:
+		return []*nfs.Compound4res{c.w.compound(0, &nfs.NfsArgop4_OP_SETCLIENTID_CONFIRM{OpsetclientidConfirm: nfs.SetclientidConfirm4args{Clientid: c.id, SetclientidConfirm: nfs.Verifier4{0xde, 0xad}}})}
+	case 1:
+		return []*nfs.Compound4res{c.w.compound(0, &nfs.NfsArgop4_OP_RENEW{Oprenew: nfs.Renew4args{Clientid: c.id ^ 0x1234}})}
+	case 2:
+		return []*nfs.Compound4res{c.w.compound(0, &nfs.NfsArgop4_OP_RELEASE_LOCKOWNER{OpreleaseLockowner: nfs.ReleaseLockowner4args{LockOwner: nfs.LockOwner4{Clientid: c.id, Owner: []byte("lock-o1")}}})}
+	case 3:
+		live := c.liveOpens()
+		if len(live) == 0 {
+			return nil
+		}
+		st := live[rng.IntN(len(live))]
+		res := c.w.compound(0, putfh(st.fh), &nfs.NfsArgop4_OP_OPEN{Opopen: nfs.Open4args{Seqid: c.ownerSeq[st.owner], ShareAccess: nfs.OPEN4_SHARE_ACCESS_READ, ShareDeny: nfs.OPEN4_SHARE_DENY_NONE,
+			Owner: nfs.OpenOwner4{Clientid: c.id, Owner: []byte(st.owner)}, Openhow: &nfs.Openflag4_default{}, Claim: &nfs.OpenClaim4_CLAIM_PREVIOUS{DelegateType: nfs.OPEN_DELEGATE_NONE}}})
+		switch res.Status {
+		case nfs.NFS4ERR_STALE_CLIENTID, nfs.NFS4ERR_STALE_STATEID, nfs.NFS4ERR_BAD_STATEID, nfs.NFS4ERR_BAD_SEQID, nfs.NFS4ERR_BADXDR, nfs.NFS4ERR_RESOURCE, nfs.NFS4ERR_NOFILEHANDLE, nfs.NFS4ERR_MOVED, nfs.NFS4ERR_STALE:
+		default:
+			c.ownerSeq[st.owner]++
+			if ok, isOK := res.Resarray[len(res.Resarray)-1].(*nfs.NfsResop4_OP_OPEN).Opopen.(*nfs.Open4res_NFS4_OK); isOK {
+				st.stateID = ok.Resok4.Stateid
+			}
+		}
+		return []*nfs.Compound4res{res}
+	case 4: // share deny is not supported
+		return []*nfs.Compound4res{c.w.compound(0, putfh(dirFH), &nfs.NfsArgop4_OP_OPEN{Opopen: nfs.Open4args{Seqid: c.ownerSeq["o1"] + 9, ShareAccess: nfs.OPEN4_SHARE_ACCESS_READ, ShareDeny: nfs.OPEN4_SHARE_DENY_BOTH,
+			Owner: nfs.OpenOwner4{Clientid: c.id, Owner: []byte("o1")}, Openhow: &nfs.Openflag4_default{}, Claim: &nfs.OpenClaim4_CLAIM_NULL{File: "f0"}}})}
+	default: // operations without a file handle, unsupported minor version
+		return []*nfs.Compound4res{c.w.compound(0, getattr), c.w.compound(0, &nfs.NfsArgop4_OP_LOOKUP{Oplookup: nfs.Lookup4args{Objname: "x"}})}
+	}
+}
+
 func (c *nfsClient) liveOpens() []*openState {
 	var out []*openState
 	for _, o := range c.opens {
@@ -557,32 +637,29 @@ func runNFSProbeCase(r *ev.Run, rc *reach, i int) {
 		}
 		walk(w.env.Root, 0)
 	}
-	after := func(results []*nfs.Compound4res) {
-		for _, res := range results {
-			if dead {
-				return
+	w.onCompound = func(minor uint32, res *nfs.Compound4res) {
+		fn, st := lastOp(res), statName(res.Status)
+		log = append(log, fmt.Sprintf("v4.%d %s -> %s", minor, fn, st))
+		rc.add(fmt.Sprintf("nfs4%d.%s", minor, fn), st, 1)
+		if res.Status != nfs.NFS4_OK {
+			errs++
+			r.Situation("probed-after-error-return:nfsv4")
+		}
+		held, n := w.probe(dirs, leaves)
+		probes += n
+		if len(held) > 0 {
+			dead = true
+			w.dead.Store(true)
+			l := log
+			if len(l) > 200 {
+				l = l[len(l)-200:]
 			}
-			fn, st := lastOp(res), statName(res.Status)
-			log = append(log, fmt.Sprintf("v4.%d %s -> %s", minor, fn, st))
-			rc.add(fmt.Sprintf("nfs4%d.%s", minor, fn), st, 1)
-			if res.Status != nfs.NFS4_OK {
-				errs++
-				r.Situation("probed-after-error-return:nfsv4")
-			}
-			held, n := w.probe(dirs, leaves)
-			probes += n
-			if len(held) > 0 {
-				dead = true
-				l := log
-				if len(l) > 200 {
-					l = l[len(l)-200:]
-				}
-				r.Violation(leakSig(fmt.Sprintf("nfsv4.%d", minor), fn, st, lockKind(held)),
-					fmt.Sprintf("case=%d: after a v4.%d COMPOUND ending in %s returned %s the following locks are still held: %v", i, minor, fn, st, held),
-					witness{Seed: r.Seed(), Phase: "nfs-probe", Case: i, Fn: fn, Status: st, Held: held, Log: append([]string(nil), l...)})
-			}
+			r.Violation(leakSig(fmt.Sprintf("nfsv4.%d", minor), fn, st, lockKind(held)),
+				fmt.Sprintf("case=%d: after a v4.%d COMPOUND ending in %s returned %s the following locks are still held: %v", i, minor, fn, st, held),
+				witness{Seed: r.Seed(), Phase: "nfs-probe", Case: i, Fn: fn, Status: st, Held: held, Log: append([]string(nil), l...)})
 		}
 	}
+	after := func(results []*nfs.Compound4res) {}
 	for _, c := range clients {
 		after(c.register())
 	}
@@ -609,13 +686,15 @@ func runNFSProbeCase(r *ev.Run, rc *reach, i int) {
 			after(c.register()) // re-registration with a new verifier drops all state
 		case k == 2:
 			w.env.Clock.Advance(time.Duration(1+rng.IntN(50))*time.Second, nil)
-		case k == 3 && minor == 1 && rng.IntN(3) == 0:
+		case k <= 6:
+			after(c.hostile(rng, fhs[rng.IntN(len(fhs))]))
+		case k == 7 && minor == 1 && rng.IntN(3) == 0:
 			after([]*nfs.Compound4res{w.compound(1, &nfs.NfsArgop4_OP_DESTROY_SESSION{OpdestroySession: nfs.DestroySession4args{DsaSessionid: c.session}})})
 			after(c.register())
 		default:
 			after(c.step(rng, rng.IntN(2), fhs, true))
 		}
-		if s%8 == 0 {
+		if s%8 == 0 && !dead {
 			collect()
 		}
 	}
@@ -636,7 +715,7 @@ func runNFSProbeCase(r *ev.Run, rc *reach, i int) {
 }
 
 func runNFSProbes(r *ev.Run, rc *reach) {
-	n := r.Pick(80, 2400)
+	n := r.Pick(160, 3200)
 	parallel(8, n, func(i int) { runNFSProbeCase(r, rc, i) })
 	r.Floor("probed-after-error-return:nfsv4", 200)
 	r.Floor("nfs-lease-expired", 20)
